@@ -381,7 +381,11 @@ func (c *Ctx) Merge(parts []Partial) {
 				c.assume = append(c.assume, a)
 			}
 		}
-		c.MinNontriv += p.MinNontriv
+		if p.MinNontriv > c.MinNontriv {
+			// the floor guards against a run that observed (almost) nothing; parts of some case lists do not depend on the
+			// seed, so the union of the shards need not grow with their number: the largest shard floor is the floor
+			c.MinNontriv = p.MinNontriv
+		}
 		c.Exhaustive = c.Exhaustive || p.Exhaustive
 		if c.Rule == "" {
 			c.Rule = p.Rule
